@@ -92,12 +92,45 @@ PIPELINES.append(Pipeline('U2_add_points', units=[U_addpts], prelude=fac_prelude
                           canaries=['canary:normal', 'canary:throw'], timeout=900, replay=('c17_geom', lambda cex, o: ['multipolygon']),
                           note='each ring is handled on its own: its first point is always written, whatever the previous ring ended with'))
 
+
+# ---- double2string: number formatting --------------------------------------------------------------------------------------------
+D2S_PRELUDE = '''
+/* snprintf(buf, size, "%.*f", p, v): assumed contract (C standard): returns the length r of the full text; writes min(r, size-1) characters and a NUL.
+   The text of a finite value is  -?D+  followed by  '.' and exactly p digits when p > 0;  of a non-finite value "inf"/"-inf"/"nan"/"-nan". */
+int ghost_r; int ghost_finite; size_t ghost_k;
+int snprintf_f(char* buf, size_t size, int precision, double value)
+__CPROVER_requires(size >= 8 && __CPROVER_w_ok(buf, size) && precision >= 0 && precision <= 17)
+__CPROVER_assigns(__CPROVER_object_whole(buf), ghost_r, ghost_finite)
+__CPROVER_ensures(__CPROVER_return_value == ghost_r && (ghost_finite == 0 || ghost_finite == 1))
+__CPROVER_ensures(ghost_finite ? (ghost_r >= 1 + (precision > 0 ? 1 + precision : 0) && ghost_r <= 1 + 309 + (precision > 0 ? 1 + precision : 0)) : (ghost_r >= 3 && ghost_r <= 4))
+__CPROVER_ensures((size_t)ghost_r >= size || buf[ghost_r] == 0)
+__CPROVER_ensures(!(ghost_finite && precision > 0 && (size_t)ghost_r < size) || (buf[ghost_r - precision - 1] == '.' && buf[ghost_r - precision - 2] >= '0' && buf[ghost_r - precision - 2] <= '9'))
+__CPROVER_ensures(!(ghost_finite && (size_t)ghost_r < size && ghost_k < (size_t)ghost_r && (precision == 0 || ghost_k != (size_t)(ghost_r - precision - 1))) || ((buf[ghost_k] >= '0' && buf[ghost_k] <= '9') || (ghost_k == 0 && buf[0] == '-')))
+__CPROVER_ensures(ghost_finite || (size_t)ghost_r >= size || (buf[ghost_r - 1] != '0' && buf[ghost_r - 1] != '.'))
+;
+char ghost_out[400]; size_t ghost_out_len; const char* ghost_src;
+char* copy_n(const char* src, size_t n, char* dst) __CPROVER_requires(__CPROVER_r_ok(src, n)) __CPROVER_assigns(ghost_out_len, ghost_src) __CPROVER_ensures(ghost_out_len == n && ghost_src == src);
+'''
+U_d2s = Unit(DBL, 'double2string', sig=r'T iterator, double value, int precision', bind={'T': 'char*'}, ret='char*',
+             pre=[(r'int len = snprintf\(buffer, max_double_length, "%\.\*f", precision, value\);', 'int len = snprintf_f(buffer, max_double_length, precision, value);')])
+PIPELINES.append(Pipeline('U4_double2string', units=[U_d2s], prelude=D2S_PRELUDE, contracts={'double2string': [
+    ('pre:any double, any precision the exporters may request', 'requires', 'precision >= 0 && precision <= 17'),
+    ('post:a non-empty prefix of the printed text is written', 'ensures', 'ghost_out_len >= 1 && ghost_out_len <= (size_t)ghost_r'),
+    ('post:only superfluous characters are dropped: zeros after the decimal point, and the point itself if nothing follows it (the number is unchanged)', 'ensures',
+     '!ghost_finite || (precision == 0 ? ghost_out_len == (size_t)ghost_r : ghost_out_len + 1 >= (size_t)(ghost_r - precision))'),
+    ('frame', 'assigns', 'ghost_r, ghost_finite, ghost_out_len, ghost_src')]},
+    loops={'double2string': [['__CPROVER_assigns(len)', '__CPROVER_loop_invariant(len >= ghost_r - precision && len <= ghost_r && ghost_finite && precision > 0)', '__CPROVER_decreases(len)']]},
+    replace=['snprintf_f', 'copy_n'], enforce='double2string',
+    harness='void harness(void) { char* it; double v; int p; double2string(it, v, p); __CPROVER_assert(0, "canary"); }',
+    replay=('c17_geom', lambda cex, o: ['search']), noflags=['--conversion-check'],
+    note='all array accesses are inside the local buffer for every double (up to 309 integer digits) and every precision 0..17; relative to the assumed shape of the snprintf output'))
+
 TRUSTED = ['the projection rejects invalid locations (Location::lon()/lat() throw invalid_location) and the output implementation appends each point it is given (assumed contract of the ghost sink)']
 ASSUMPTIONS = ['node reference lists of at most 5000 entries (object-size bound; the loop contract makes the proof independent of it)']
 NOT_DECIDED = ['WKB/WKT/GeoJSON byte layout and count patching', 'reverse iteration', 'Mercator values inside the exports (C18)', 'create_multipolygon ring/polygon bracketing']
 LEVEL_TEXT = ('Proof (unbounded loop contracts, sequences of any length, arbitrary locations) for the point selection of the geometry factory in unique mode - fill_linestring_unique, '
               'fill_polygon_unique and add_points (one multipolygon ring): a point is written exactly when it differs from its predecessor, the first point of every sequence always, the '
               'returned count equals the number of points written, the last point written is the last location of the input, and every undefined or invalid location in the input leads to '
-              'invalid_location instead of being dropped.')
+              'invalid_location instead of being dropped; double2string stays inside its buffer for every snprintf result within the contract, strips exactly the trailing zeros of the fraction and appends the rest.')
 LEVEL_NOTE = ('Trusted: CBMC, extraction rules, the ghost sink standing for projection + output implementation (rejects invalid locations, appends the rest). Forward iteration only (TIter := const NodeRef*). '
-              'Not decided: byte layout and count patching of WKB/WKT/GeoJSON, reverse iteration, ring/polygon bracketing of create_multipolygon, double2string (recorded defect F5 outside the exporters\' default precision), Mercator values (C18).')
+              'Not decided: byte layout and count patching of WKB/WKT/GeoJSON, reverse iteration, ring/polygon bracketing of create_multipolygon, Mercator values (C18).')
